@@ -33,3 +33,12 @@ pub proof fn axiom_string_key_model() ensures vstd::std_specs::hash::obeys_key_m
 pub proof fn axiom_slice_len<T>(v: &[T])
     ensures v@.len() <= 0x7fff_ffff_ffff_ffff
 { }
+
+// TRUSTED (std): `String: Borrow<str>` hands out the string's own characters, hashing and comparing like the String does.
+// So looking a `&str` up in a map keyed by String finds the key with the same characters; and a String IS its characters.
+pub broadcast axiom fn axiom_str_borrowed_key_contains<V>(m: Map<String, V>, k: &str)
+    ensures #[trigger] vstd::std_specs::hash::contains_borrowed_key(m, k) <==> (exists|s: String| #[trigger] m.contains_key(s) && s@ == k@);
+pub broadcast axiom fn axiom_str_borrowed_key_maps<V>(m: Map<String, V>, k: &str, v: V)
+    ensures #[trigger] vstd::std_specs::hash::maps_borrowed_key_to_value(m, k, v) <==> (exists|s: String| #[trigger] m.contains_key(s) && s@ == k@ && m[s] == v);
+pub broadcast axiom fn axiom_string_is_its_characters(a: String, b: String)
+    ensures #[trigger] a@ == #[trigger] b@ ==> a == b;
